@@ -143,6 +143,26 @@ func (svr *StrictServerImpl) compute(
 		}
 		return
 	}
+	for _, o := range []struct {
+		name  string
+		value *int
+		min   int
+	}{
+		{"flatTail", flatTail, 0},
+		{"numLeaders", numLeaders, 0},
+		{"maxIterations", maxIterations, 0},
+		{"minIterations", minIterations, 1},
+		{"checkFreq", checkFreq, 1},
+	} {
+		if o.value != nil && *o.value < o.min {
+			err = server.HTTPError{
+				Code: 400,
+				Inner: fmt.Errorf("%s=%d is less than the minimum %d",
+					o.name, *o.value, o.min),
+			}
+			return
+		}
+	}
 	if flatTail != nil {
 		opts = append(opts, basic.WithFlatTail(*flatTail))
 	}
